@@ -846,20 +846,23 @@ def stage_temp_trace(chk, bins, variant, seeds, progdef, modelled):
             break
 
 
-def stage_schedules(chk, bins, nthreads, steps):
+def stage_schedules(chk, bins, nthreads, steps, mixed=False):
     """TLC enumerates every order in which nthreads concurrent calls can take up to `steps` steps each (mech/Sched); each is
     enforced on the real code through the counter gates; TraceSched validates what the calls returned."""
     name = "Sched_%d_%d" % (nthreads, steps)
     path, res = vlib.generate_cases(chk.work, name, "Sched", "CONSTANTS\n NThreads = %d\n Steps = %d\nINIT Init\nNEXT Next\nINVARIANT Emit\nCHECK_DEADLOCK FALSE\n" % (nthreads, steps), timeout=1800)
     chk.add_tlc(res, "mech/Sched: every order of steps of %d concurrent calls with <= %d steps each (threads interchangeable)" % (nthreads, steps), {"behaviours": len(res.replay_lines)})
     tpath = os.path.join(chk.work, name + ".trace.ndjson")
-    st = "replay of every schedule (%d threads x %d steps) through the counter gates on the real code" % (nthreads, steps)
+    st = "replay of every schedule (%d threads x %d steps%s) through the counter gates on the real code" % (
+        nthreads, steps, "; thread 1: serialize::test(remove) then temp_file_name, the others: two calls" if mixed else "")
+    if mixed:
+        tpath = os.path.join(chk.work, name + ".mixed.trace.ndjson")
     try:
-        out = vlib.harness(bins["dbg-native"], ["schedules", "--cases", path, "--out", tpath], timeout=1800)
+        out = vlib.harness(bins["dbg-native"], ["schedules", "--cases", path, "--out", tpath, "--mixed", "1" if mixed else "0"], timeout=1800)
     except vlib.HarnessCrash as e:
         chk.violation(st, {"kind": "crash", "signal": e.signal})
         return
-    ok, info, res2 = vlib.validate_trace(chk.work, "T_" + name, "TraceSched", tpath)
+    ok, info, res2 = vlib.validate_trace(chk.work, "T_" + name + ("_mixed" if mixed else ""), "TraceSched", tpath)
     chk.add_tlc(res2, "TraceSched: the paths returned under each of the %d schedules are pairwise different and carry the name part" % len(res.replay_lines),
                 {"events": out["stats"].get("events"), "accepted": ok})
     if ok:
@@ -914,8 +917,8 @@ def check_C20(chk):
             raise ToolError("MC TempName: %s" % res.error)
     # 2. the real code under every schedule of a few concurrent calls (no model of the program needed)
     if not chk.violations:
-        for nthreads, steps in [(2, 5), (3, 3), (3, 4)] + ([(3, 5), (4, 3)] if chk.thorough else []):
-            stage_schedules(chk, bins, nthreads, steps)
+        for nthreads, steps, mixed in [(2, 5, False), (3, 3, False), (3, 4, False), (2, 6, True), (3, 3, True)] + ([(3, 5, False), (4, 3, False), (3, 4, True)] if chk.thorough else []):
+            stage_schedules(chk, bins, nthreads, steps, mixed)
             if chk.violations:
                 break
     # 3. stress runs, validated primitive by primitive
